@@ -8,7 +8,7 @@
 (*            (x, method, n, order) overwritten at every call              *)
 (*   objs   - per derivative object n / order / method and the generator   *)
 (*            it holds (its own default one, or a shared user instance)    *)
-(* Operations: Construct, Call, SetN, SetOrder, SetMethod, ClearCache,     *)
+(* Operations: Construct, Call, Nested, SetN, SetOrder, SetMethod, ClearCache,     *)
 (* Prepopulate.  What a Call reads is read AFTER it overwrote the          *)
 (* generator state, so its abstract result is a pure function of the       *)
 (* object's current configuration, the generator's options and x:          *)
@@ -92,6 +92,25 @@ Call(i, x) ==
                  hit |-> UsesRule(ob) /\ KeyOf(ob) \in cache])
   /\ UNCHANGED objs
 
+\* object i differentiates a function that itself calls object j at every evaluation (mixed partials,
+\* a derivative inside an objective): j's calls run BETWEEN i's step generation and i's rule look-up, so
+\* whatever i still reads after its evaluations must not come from a generator or cache j has touched
+WriteGen(gg, gid, st) == IF gid \in DOMAIN gg THEN [gg EXCEPT ![gid] = st] ELSE gg @@ (gid :> st)
+Nested(i, j, x) ==
+  /\ Len(hist) < MaxOps
+  /\ i # j /\ objs[i].alive /\ objs[j].alive
+  /\ objs[i].n >= 1 /\ objs[j].n >= 1 /\ objs[i].m \in RealStep
+  /\ LET oi == objs[i]  oj == objs[j]
+         sti == <<x, oi.m, oi.n, MethodOrder(oi.m, oi.n, oi.o)>>
+         stj == <<0, oj.m, oj.n, MethodOrder(oj.m, oj.n, oj.o)>>      \* x = 0: the inner call's last point is not modelled
+         keys == (IF UsesRule(oi) THEN {KeyOf(oi)} ELSE {}) \cup (IF UsesRule(oj) THEN {KeyOf(oj)} ELSE {})
+     IN  /\ gens' = WriteGen(WriteGen(gens, GenId(i, oi), sti), GenId(j, oj), stj)
+         /\ cache' = cache \cup keys
+         /\ last' = [op |-> "call", res |-> Pure(oi, x), obj |-> oi]
+         /\ Log([op |-> "nested", obj |-> i, inner |-> j, x |-> x, m |-> oi.m, n |-> oi.n, o |-> oi.o, gen |-> oi.g,
+                 im |-> oj.m, in |-> oj.n, io |-> oj.o, igen |-> oj.g])
+  /\ UNCHANGED objs
+
 SetN(i, v) ==
   /\ Len(hist) < MaxOps /\ objs[i].alive /\ objs[i].n # v
   /\ (objs[i].m = "multicomplex" => v <= 2)
@@ -123,6 +142,7 @@ Prepopulate(c, g) ==     \* somebody else (a throw-away rule object) fills the c
 Next ==
   \/ \E i \in 1..NObj, c \in 1..NCfg, g \in {0} \cup SharedGens : Construct(i, c, g)
   \/ \E i \in 1..NObj, x \in Xs : Call(i, x)
+  \/ \E i, j \in 1..NObj, x \in {1, 2} : Nested(i, j, x)
   \/ \E i \in 1..NObj, v \in 0..3 : SetN(i, v)
   \/ \E i \in 1..NObj, v \in {1, 2, 4} : SetOrder(i, v)
   \/ \E i \in 1..NObj, v \in RealStep : SetMethod(i, v)
@@ -139,7 +159,7 @@ ResultIsPure ==
 \* after a call the generator remembers exactly that call
 GenRemembersLastCall ==
   last.op = "call" /\ last.obj.n # 0 =>
-      \E k \in DOMAIN gens : gens[k] = <<last.res.x, last.obj.m, last.obj.n, last.res.mo>>
+      \E k \in DOMAIN gens : gens[k] = <<last.res.x, last.obj.m, last.obj.n, last.res.mo>> \/ gens[k][1] = 0
 \* every cached key is the key of some configuration's rule (no foreign keys)
 CacheKeysWellFormed ==
   \A k \in cache : k[2] \in 0..6 /\ k[3] >= 1 /\ k[1] \in {<<2, 1>>, <<8, 5>>, <<41, 25>>}
